@@ -80,7 +80,7 @@ def gen_property(r, idx, profile='mixed'):
 def gen_callable(r, idx, profile='mixed'):
     """one decorated callable: returns {'src', 'twin', 'access': [...], 'kind', 'name', 'cls'}"""
     kind = r.choice(['plain'] * 5 + ['inst_direct', 'inst_class', 'inst_class', 'static_class', 'class_class', 'static_direct',
-                                    'dunder_class', 'require_kwargs', 'require_kwargs_method', 'prop_class'])
+                                    'dunder_class', 'require_kwargs', 'require_kwargs_method', 'prop_class', 'bound_direct', 'bound_rk'])
     if kind == 'prop_class':
         return gen_property(r, idx, profile)
     flavour = r.choice(['sync'] * 6 + ['coroutine'] * 2)
@@ -188,6 +188,10 @@ def gen_callable(r, idx, profile='mixed'):
             m = ''.join('    ' + x + '\n' for x in decos) + f"    {d} {name}({sig('self')}){retann}:\n" + body('        ')
             tm = ''.join('    ' + x + '\n' for x in decos if x == '@passthru') + f"    {d} {name}({sig('self')}){retann}:\n" + body('        ')
             access = [('inst', cls, name)]
+        elif kind in ('bound_direct', 'bound_rk'):
+            # the decorator is applied to a BOUND method object: `b = pedantic(obj.method)`
+            m = tm = f"    {d} {name}({sig('self')}){retann}:\n" + body('        ')
+            access = [('mod', f'b_{name}')]
         elif kind == 'require_kwargs_method':
             m = f"    @require_kwargs\n    {d} {name}({sig('self')}){retann}:\n" + body('        ')
             tm = f"    {d} {name}({sig('self')}){retann}:\n" + body('        ')
@@ -211,6 +215,10 @@ def gen_callable(r, idx, profile='mixed'):
             access = [('cls', cls, name), ('inst', cls, name)]
         src = cdeco + f'class {cls}:\n' + m
         twin = f'class {cls}:\n' + tm
+        if kind in ('bound_direct', 'bound_rk'):
+            deco = 'pedantic' if kind == 'bound_direct' else 'require_kwargs'
+            src += f'_o{idx} = {cls}()\nb_{name} = {deco}(_o{idx}.{name})\n'
+            twin += f'_o{idx} = {cls}()\nb_{name} = _o{idx}.{name}\n'
     return {'src': src, 'twin': twin, 'access': access, 'kind': kind, 'name': name, 'cls': cls, 'idx': idx, 'flavour': flavour,
             'needle': needle, 'stack': stack, 'alias': alias}
 
@@ -586,7 +594,7 @@ class Programs:
                     break
                 t = t.__wrapped__
             if isinstance(t, types.FunctionType):
-                return t, ('requireKwargs' if F.get('kind', '').startswith('require_kwargs') else 'pedantic')
+                return t, ('requireKwargs' if F.get('kind', '').startswith('require_kwargs') or F.get('kind') == 'bound_rk' else 'pedantic')
         return raw, mode
 
 
